@@ -394,6 +394,26 @@ def _plain_only(src, path, spec):
     return {"exc": call_once(code, path, spec)["exc"]}
 
 
+def _roundtrip_only(src, path, spec):
+    """Run the module after nothing but `Bytecode.from_code(c).to_code()` on every code object: no Pynguin code."""
+    from bytecode import Bytecode
+
+    def conv(c):
+        new = Bytecode.from_code(c).to_code()
+        return new.replace(co_consts=tuple(conv(k) if isinstance(k, types.CodeType) else k for k in new.co_consts))
+    return {"exc": call_once(conv(compile(src, path, "exec")), path, spec)["exc"]}
+
+
+def crash_cause(src, path, spec):
+    """Suffix for a crash signature: ':bytecode-roundtrip' when the interpreter also dies on the code that merely went
+    through the third-party `bytecode` library's disassemble/assemble round trip (wrong exception-table stack depths,
+    e.g. for try/except-as/finally-continue inside a loop), '' otherwise."""
+    with open(path, "w") as f:
+        f.write(src)
+    r = isolated(_roundtrip_only, src, path, spec, timeout=60)
+    return ":bytecode-roundtrip" if "crash" in r else ""
+
+
 def usable_specs(src, path, specs, limit=4):
     """Pre-run the PLAIN program on every input in its own child under a short watchdog; keep only the
     inputs on which it terminates quickly and does not itself kill the interpreter.  Returns
@@ -457,7 +477,9 @@ def differential_isolated(src, path, specs, subsets):
             if hit is None:
                 inconclusive["crash-not-reproduced"] = inconclusive.get("crash-not-reproduced", 0) + 1
             else:
-                fails.append([list(ms), hit, "crash", r["crash"], "interpreter died (the plain program runs normally on this input)"])
+                cause = crash_cause(src, path, specs[hit])
+                fails.append([list(ms), hit, "crash", r["crash"] + cause, "interpreter died (the plain program runs normally on this input)"
+                              + ("; it also dies on the code that only went through bytecode's from_code/to_code round trip" if cause else "")])
         elif "inconclusive" in r:
             inconclusive[r["inconclusive"]] = inconclusive.get(r["inconclusive"], 0) + 1
         elif "harness_error" in r:
